@@ -1,7 +1,6 @@
 (* C06_AuxTie.v — the auxiliary-entry condition of wf_table' (FitsWf.aux_entry_ok) against C16's model of write_key
    (AuxModel.accepts, with the parameters the translator tools/translators/aux.py reads from the current source tree,
    Generated_aux.gen_params): every (key, value) that write_key accepts satisfies aux_entry_ok, except
-     - the keys EXTNAME / HDUNAME (known finding C06:aux-key:EXTNAME-shadows-KNOTSn), and
      - HIERARCH keys whose card does not fit in the standard form "HIERARCH key = 'value'" (cfitsio then writes
        "HIERARCH key= 'value'" or truncates; FitsModel.card_text models the standard form only).
    AuxModel is over Coq strings, FitsModel over lists of character codes; [lit] (FitsModel) converts.
@@ -121,18 +120,17 @@ Qed.
 (* ------------------------------------------------------------------------------------------------ *)
 Theorem write_key_accepted_entry_ok ks vs :
   AuxModel.accepts Generated_aux.gen_params ks vs = true ->
-  str_eqb (lit ks) s_EXTNAME = false -> str_eqb (lit ks) s_HDUNAME = false ->
   ((length (lit ks) <= 8)%nat \/ (length (lit ks) + Nat.max 8 (enc_len (lit vs)) <= 66)%nat) ->
   aux_entry_ok (lit ks, lit vs) = true.
 Proof.
-  intros ACC NX NH FIT. unfold AuxModel.accepts in ACC.
+  intros ACC FIT. unfold AuxModel.accepts in ACC.
   destruct (AuxModel.check_key Generated_aux.gen_params ks) as [e|vmax] eqn:CK; [discriminate|].
   apply andb_true_iff in ACC as [_ LEN]. apply negb_true_iff, N.ltb_ge in LEN. rewrite enc_len_agree in LEN.
   unfold AuxModel.check_key in CK. rewrite reserved_agree in CK.
   destruct (reserved (lit ks)) eqn:R; [discriminate|].
   cbn [AuxModel.p_short_keylen AuxModel.p_short_vmax AuxModel.p_printable_check AuxModel.p_long_keymax
        AuxModel.p_long_blank_check Generated_aux.gen_params] in CK.
-  rewrite <- lit_length in CK. unfold aux_entry_ok, aux_key_ok. cbn [fst snd]. rewrite R, NX, NH. cbn [negb]. rewrite !andb_true_r.
+  rewrite <- lit_length in CK. unfold aux_entry_ok, aux_key_ok. cbn [fst snd]. rewrite R. cbn [negb]. rewrite !andb_true_r.
   destruct (length (lit ks) <=? 8)%nat eqn:LK.
   - destruct (AuxModel.forall_chars (fun c => AuxModel.is_upper c || AuxModel.is_digit c) ks) eqn:FC; [|discriminate].
     injection CK as <-.
@@ -174,4 +172,20 @@ Proof.
   cbn [AuxModel.p_hier_overhead AuxModel.p_card Generated_aux.gen_params] in LEN.
   apply Nat.leb_gt in LK.
   destruct (13 + N.of_nat (length (lit ks)) <=? 80) eqn:U; lia.
+Qed.
+
+(* ------------------------------------------------------------------------------------------------ *)
+(* EXTNAME / HDUNAME — the names fits_movnam_hdu compares, the primary HDU included — are reserved in the current tree (repair of
+   the finding C06:aux-key:EXTNAME-shadows-KNOTSn): write_key rejects them whatever the value, and the primary HDU of a
+   well-formed table matches no name *)
+Lemma name_keys_reserved :
+  reserved s_EXTNAME = true /\ reserved s_HDUNAME = true /\
+  (forall ks vs, lit ks = s_EXTNAME \/ lit ks = s_HDUNAME -> AuxModel.accepts Generated_aux.gen_params ks vs = false) /\
+  (forall t name, wf_table' t = true -> name_matches name (primary_hdu t) = false).
+Proof.
+  split; [exact reserved_EXTNAME|]. split; [exact reserved_HDUNAME|]. split.
+  - intros ks vs K. unfold AuxModel.accepts, AuxModel.check_key. rewrite reserved_agree.
+    destruct K as [-> | ->]; [rewrite reserved_EXTNAME | rewrite reserved_HDUNAME]; reflexivity.
+  - intros t name W. apply name_matches_primary. apply wf_table'_wf_table in W. unfold wf_table in W.
+    repeat (apply andb_true_iff in W; destruct W as [W ?]). assumption.
 Qed.
